@@ -68,7 +68,8 @@ fn format(fstring: String, args: Rc<RefCell<Vec<Value>>>) -> Option<String> {
 
         // if we're last one there is no format arg
         if i + 1 < segments.len() {
-            write!(builder, "{}", args.borrow()[i]).unwrap()
+            // too few arguments for the placeholders: no result
+            write!(builder, "{}", args.borrow().get(i)?).unwrap()
         }
     }
 
@@ -82,13 +83,27 @@ pub(super) fn std_io() -> FunctionMap {
         Ok(Value::String(result))
     });
 
-    std_function!(functions => fn FORMAT(fstring: Value::String, args: Value::List) {
-        let builder= format(fstring, args).expect("Incorrect number of format arguments. Failed to format");
+    std_function!(functions => fn FORMAT[ctx](fstring: Value::String, args: Value::List) {
+        let Some(builder) = format(fstring, args) else {
+            return Err(ctx.error(
+                1,
+                "Invalid Format Arguments",
+                "Make sure the LIST has an item for every `{}` of the format STRING".to_string(),
+                "Too few items for the format STRING",
+            ));
+        };
         Ok(Value::String(builder))
     });
 
-    std_function!(functions => fn DISPLAYF(fstring: Value::String, args: Value::List) {
-        let builder= format(fstring, args).expect("Incorrect number of format arguments. Failed to format");
+    std_function!(functions => fn DISPLAYF[ctx](fstring: Value::String, args: Value::List) {
+        let Some(builder) = format(fstring, args) else {
+            return Err(ctx.error(
+                1,
+                "Invalid Format Arguments",
+                "Make sure the LIST has an item for every `{}` of the format STRING".to_string(),
+                "Too few items for the format STRING",
+            ));
+        };
         display!("{}\n", builder);
 
         Ok(Value::Null)
